@@ -29,6 +29,7 @@ func NewProgressBar(prefix string) ProgressBar {
 		// the default carriage returns.
 		bar.Callback = func(s string) { fmt.Fprintln(os.Stderr, s) }
 		bar.Output = nil
+		bar.NotPrint = true
 	}
 	return DefaultProgressBar{bar}
 }
